@@ -37,7 +37,10 @@ static void init(const char *)
 	p_refused_tight = counter_id("probe", "refused_within_24_bytes_of_contract");
 	p_wrap_payload = counter_id("probe", "payload_straddles_wrap");
 	p_wrap_header = counter_id("probe", "header_straddles_wrap");
-	p_early_read = counter_id("probe", "read_completed_before_commit_returned");
+	// not a reachability probe: with a correct library nothing can run between the publishing store (the last access
+	// commit makes on a ring without semaphore) or the semaphore post and the return of the write call; counted to
+	// show how a library that publishes early would be met (the chunk then counts as consumed when the write returns)
+	p_early_read = counter_id("stat", "read_completed_before_commit_returned");
 	p_nothing = counter_id("probe", "read_reported_nothing");
 	p_enobufs = counter_id("probe", "read_enobufs");
 	p_reader_between_dead_and_rp = counter_id("probe", "writer_ran_between_DEAD_and_read_pt_advance");
